@@ -48,22 +48,9 @@ MODARG = {"add_import": (0, ("logical_module", "module")), "add_plain_import": (
 #   -> (claimed class, why).  Claimed classes: "pkg" (always below the output package), "stdlib:<name>" (always that
 #   stdlib module), "dead" (the branch cannot run in generate_client: see why).
 AUDITED: dict[tuple[str, str, str], tuple[str, str]] = {
-    ("context/render_context.py", "add_typing_imports_for_type", "module_name"):
-        ("stdlib:datetime", "module_name comes from re.findall(r'\\b(datetime\\.(?:date|datetime))\\b').split('.')[0]"),
     ("visit/client_visitor.py", "_generate_client_implementation", "f'endpoints.{module_name}'"):
         ("dead", "else-branch taken only when get_current_package_name_for_generated_code() is None; "
                  "generate_client always sets output_package_name"),
-    ("types/resolvers/schema_resolver.py", "_resolve_named_schema", "import_module"):
-        ("pkg", "import_module is either a relative path from calculate_relative_path_for_internal_module or "
-                "f'{absolute_models_package}.{module_stem}' / '..models.<stem>' fall-backs"),
-    ("helpers/type_resolution/object_resolver.py", "_promote_anonymous_object_schema_if_needed", "module_to_import_from"):
-        ("pkg", "f'..models.{stem}' relative literal prefix"),
-    ("helpers/type_resolution/object_resolver.py", "resolve", "model_module_path"):
-        ("pkg", "f'{pkg}.models.{stem}'"),
-    ("helpers/type_resolution/named_resolver.py", "resolve", "key_to_check"):
-        ("pkg", "f'{pkg}.models.{stem}'"),
-    ("helpers/type_resolution/named_resolver.py", "resolve", "model_module_path"):
-        ("pkg", "f'{pkg}.models.{stem}'"),
 }
 
 
@@ -216,11 +203,38 @@ def classify(e: ast.expr, fn: ast.AST | None, rel: str, fname: str, depth: int =
                         and v.func.attr == "calculate_relative_path_for_internal_module" for v in vals):
             return "ViaRelativePath"
         if vals:
-            cls = {classify(v, fn, rel, fname, depth + 1) for v in vals}
-            if len(cls) == 1 and "Computed" not in next(iter(cls)):
-                return next(iter(cls))
+            alts: list[str] = []
+            for v in vals:
+                c = classify(v, fn, rel, fname, depth + 1)
+                alts += c if isinstance(c, list) else [c]
+            alts = sorted(set(alts))
+            if alts and not any("Computed" in c for c in alts):
+                return alts[0] if len(alts) == 1 else alts     # the site can register any of these
+        lit = _regex_split_literal(fn, e.id)
+        if lit is not None:
+            return f"(Lit 0 {cparts([lit])})"
     key = (rel, fname, _expr_text(e))
     return "(Computed true)" if key in AUDITED else "(Computed false)"
+
+
+def _regex_split_literal(fn: ast.AST, name: str) -> str | None:
+    """`name, _ = m.split(".")` where m ranges over re.findall(r"\\b(<word>\\.(?:a|b))\\b", …): name is always <word>"""
+    for n in ast.walk(fn):
+        if (isinstance(n, ast.Assign) and isinstance(n.targets[0], ast.Tuple) and n.targets[0].elts
+                and isinstance(n.targets[0].elts[0], ast.Name) and n.targets[0].elts[0].id == name
+                and isinstance(n.value, ast.Call) and isinstance(n.value.func, ast.Attribute) and n.value.func.attr == "split"
+                and len(n.value.args) == 1 and isinstance(n.value.args[0], ast.Constant) and n.value.args[0].value == "."
+                and isinstance(n.value.func.value, ast.Name)):
+            loopvar = n.value.func.value.id
+            for f in ast.walk(fn):
+                if isinstance(f, ast.For) and isinstance(f.target, ast.Name) and f.target.id == loopvar and isinstance(f.iter, ast.Name):
+                    for v in _assigned_values(fn, f.iter.id):
+                        if (isinstance(v, ast.Call) and ast.unparse(v.func) == "re.findall" and v.args
+                                and isinstance(v.args[0], ast.Constant)):
+                            m = re.fullmatch(r"\\b\((\w+)\\\.\(\?:[\w|]+\)\)\\b", v.args[0].value)
+                            if m:
+                                return m.group(1)
+    return None
 
 
 def _reassign_ok(v: ast.expr, name: str, fn: ast.AST) -> bool:
@@ -242,6 +256,53 @@ def _enclosing_functions(tree: ast.Module):
     yield from walk(tree, None)
 
 
+ENTRY_MODULES = ["__init__.py", "__main__.py", "cli.py", "generator/client_generator.py"]
+
+
+def reachable_files() -> set[Path]:
+    """static import closure (module-level and nested imports, absolute and relative) of the generator's entry points"""
+    src = _src()
+    todo = [src / e for e in ENTRY_MODULES if (src / e).is_file()]
+    if not (src / "generator/client_generator.py").is_file():
+        raise TranslatorError("generator/client_generator.py not found")
+    seen: set[Path] = set()
+
+    def resolve(parts: list[str]) -> list[Path]:
+        out = []
+        for k in range(1, len(parts) + 1):
+            base = src.joinpath(*parts[:k])
+            if (base / "__init__.py").is_file():
+                out.append(base / "__init__.py")
+            elif base.with_suffix(".py").is_file():
+                out.append(base.with_suffix(".py"))
+        return out
+    while todo:
+        f = todo.pop().resolve()
+        if f in seen:
+            continue
+        seen.add(f)
+        relp = list(f.relative_to(src.resolve()).with_suffix("").parts)
+        pkg = relp[:-1]
+        for n in ast.walk(_parse(f)):
+            targets: list[list[str]] = []
+            if isinstance(n, ast.Import):
+                targets = [a.name.split(".")[1:] for a in n.names if a.name.split(".")[0] == "pyopenapi_gen"]
+            elif isinstance(n, ast.ImportFrom):
+                if n.level:
+                    base = pkg[:len(pkg) - (n.level - 1)] if n.level - 1 <= len(pkg) else None
+                    if base is None:
+                        continue
+                    mod = base + (n.module.split(".") if n.module else [])
+                elif n.module and n.module.split(".")[0] == "pyopenapi_gen":
+                    mod = n.module.split(".")[1:]
+                else:
+                    continue
+                targets = [mod] + [mod + [a.name] for a in n.names]
+            for t in targets:
+                todo += resolve(t) if t else [src / "__init__.py"]
+    return seen
+
+
 def generator_files() -> list[Path]:
     rt = {runtime_source(m, f).resolve() for m, f, _ in runtime_files()}
     files = sorted(p for p in _src().rglob("*.py") if "__pycache__" not in p.parts)
@@ -252,6 +313,7 @@ def generator_files() -> list[Path]:
 
 def import_sites() -> tuple[list[str], list[str]]:
     rows, unaudited = [], []
+    live = reachable_files()
     for p in generator_files():
         rel = str(p.relative_to(_src()))
         tree = _parse(p)
@@ -277,9 +339,13 @@ def import_sites() -> tuple[list[str], list[str]]:
                     cls = "(Computed false)"
                 else:
                     cls = classify(arg, fn, rel, fname)
-            if cls == "(Computed false)":
-                unaudited.append(f"{rel}:{call.lineno} {fname}: {ast.unparse(call)[:120]}")
-            rows.append(f"  mkSite {cstr(rel)} {call.lineno} {cls}")
+            if p.resolve() not in live and name in API:
+                rows.append(f"  mkSite {cstr(rel)} {call.lineno} Unreachable")
+                continue
+            for one in (cls if isinstance(cls, list) else [cls]):
+                if one == "(Computed false)":
+                    unaudited.append(f"{rel}:{call.lineno} {fname}: {ast.unparse(call)[:120]}")
+                rows.append(f"  mkSite {cstr(rel)} {call.lineno} {one}")
     if len(rows) < 100:
         raise TranslatorError(f"only {len(rows)} import sites found; the API names probably changed")
     return rows, unaudited
